@@ -90,3 +90,53 @@ def raises(stmts: Iterable[ast.AST], exc_suffix: Optional[str] = None
                                           in norm(r.exc)):
                     return True
     return False
+
+
+def reach(repo, fn, depth: int = 2) -> List[ast.AST]:
+    """The function together with what it hands work to inside its own
+    module: same-module functions / same-class methods it calls (to `depth`)
+    and the values of module-level tables it names.  Exhaustiveness rules
+    ("every member has an arm") look here instead of in the function's own
+    text, so that an arm moved into a helper or a dispatch table is still
+    an arm."""
+    seen: Set[int] = set()
+    out: List[ast.AST] = []
+    m = fn.module
+    todo = [(fn.node, fn.cls, depth)]
+    while todo:
+        node, cls, d = todo.pop()
+        if id(node) in seen:
+            continue
+        seen.add(id(node))
+        out.append(node)
+        if d <= 0:
+            continue
+        for x in ast.walk(node):
+            if isinstance(x, ast.Name) and isinstance(x.ctx, ast.Load):
+                if x.id in m.functions:
+                    f2 = m.functions[x.id]
+                    todo.append((f2.node, None, d - 1))
+                elif x.id in m.assigns:
+                    v = m.assigns[x.id]
+                    if id(v) not in seen:
+                        seen.add(id(v))
+                        out.append(v)
+            elif isinstance(x, ast.Attribute) and isinstance(
+                    x.value, ast.Name) and x.value.id in ('self', 'cls') \
+                    and cls is not None:
+                f2 = repo.find_method(cls.qualname, x.attr)
+                if f2 is not None and f2.module is m:
+                    todo.append((f2.node, f2.cls, d - 1))
+    return out
+
+
+def mentions_member(nodes: Iterable[ast.AST], enum_simple: str,
+                    member: str) -> bool:
+    """some node contains `<...>.enum_simple.member`"""
+    for n in nodes:
+        for x in ast.walk(n):
+            if isinstance(x, ast.Attribute) and x.attr == member:
+                d = dotted(x.value) or ''
+                if d.split('.')[-1] == enum_simple:
+                    return True
+    return False
